@@ -10,7 +10,8 @@
    TLC's state count is the number of instances checked.                                     *)
 EXTENDS BigInt
 
-CONSTANT TStep          \* every TStep-th grid element serves as the third member of a triple
+CONSTANT Ext,           \* TRUE: the extended grid (k = 15, 30, 62, 127, 128 as well)
+         TStep          \* every TStep-th grid element serves as the third member of a triple
 
 VARIABLES ckind, ci, cj, ck, cph      \* NB: names distinct from every bound name in BigInt (TLC stops
 vars == <<ckind, ci, cj, ck, cph>>    \* caching constant definitions when a state variable shares a parameter name)
@@ -31,7 +32,7 @@ NS(u) == IF u >= M20 \div 2 THEN u - M20 ELSE u
 NBit(op, a, b) == NS(BitOp(op, NU(a), NU(b), 20))      \* BitOp on naturals is the bit-by-bit definition
 
 (* the grid: the same one the generator uses (kept here literally: it must not depend on it) *)
-PK == <<15, 30, 31, 32, 53, 62, 63, 64, 127, 128>>
+PK == IF Ext THEN <<15, 30, 31, 32, 53, 62, 63, 64, 127, 128>> ELSE <<31, 32, 53, 63, 64>>
 GridPos == {Zero, One, FromInt(2)}
              \cup {Add(Pow2(PK[n]), FromInt(d)) : n \in 1..Len(PK), d \in {-1, 0, 1}}
              \cup {Pow10(e) : e \in {9, 10, 18, 19, 20, 30}}
